@@ -408,6 +408,19 @@ def rule_TY1(ctx):
                            extra={'props': ['C14']})
                 else:
                     r.ok(x)
+    # value-level questions (count, index, in) are answered on the decoded items, not on encodings: equal values can have different
+    # encodings (0.0 / -0.0, 'AB' / 'ab' for hex) and a value that is rounded on encoding equals no stored item
+    arr = m.classes.get('Array')
+    for nm in ('count', 'index', '__contains__'):
+        f = arr.methods.get(nm) if arr else None
+        if f is None:
+            continue
+        enc = [x for x in own_walk(f.node) if isinstance(x, ast.Call) and isinstance(x.func, ast.Attribute) and x.func.attr in ('_create_element', 'build')]
+        if enc:
+            r.fail(f.key, enc[0], f'Array.{nm} encodes the value it is asked about ({norm(enc[0])}) and compares encodings: -0.0 and 0.0, values that are rounded '
+                   "on encoding, and differently spelled hex/bin strings then count differently from the list of items", loc=f.loc(enc[0]), extra={'props': ['C14']})
+        else:
+            r.ok(f'Array.{nm} works on decoded items')
     if n == 0:
         r.ok('no numeric-only call on element values', trivial=True)
     return r
